@@ -292,6 +292,26 @@ class Net:
         c['alive'] = False
 
 
+def header_field_types(raw):
+    """[(field code, signature of its variant)] of the header-field array, the sender field (7) left out:
+    what a peer that validates header field types looks at."""
+    import struct
+    from txdbus import marshal
+    lend = raw[:1] == b'l'
+    end = 16 + struct.unpack(('<' if lend else '>') + 'I', raw[12:16])[0]
+    off, out = 16, []
+    while off < end:
+        off = (off + 7) // 8 * 8
+        code, slen = raw[off], raw[off + 1]
+        sig = raw[off + 2:off + 2 + slen].decode('ascii', 'replace')
+        off += 2 + slen + 1
+        n, _ = marshal.unmarshal(sig, raw, off, lend, [])
+        off += n
+        if code != 7:
+            out.append('%d:%s' % (code, sig))
+    return out
+
+
 def parse(message, raw, sent=False):
     m = message.parseMessage(raw, [])
     d = {
@@ -301,7 +321,7 @@ def parse(message, raw, sent=False):
         'member': getattr(m, 'member', None), 'err': getattr(m, 'error_name', None),
         'rs': getattr(m, 'reply_serial', None), 'dest': m.destination, 'sender': m.sender,
         'sig': m.signature, 'body': repr(m.body) if m.signature else None,
-        'endian': raw[0], 'rawbody': bytes(m.rawBody).hex(),
+        'endian': raw[0], 'rawbody': bytes(m.rawBody).hex(), 'hfields': header_field_types(raw),
     }
     if m.sender is None and not sent:
         d['btok'] = body_token(m.signature, m.body)         # built by the bus
@@ -625,6 +645,9 @@ def oracle(net):
             if diff:
                 add('forwarded-content-changed', 'the bus changed %s of a forwarded message' % ','.join(diff),
                     dict((f, d[f]) for f in diff), dict((f, m[f]) for f in diff))
+            elif d['hfields'] != m['hfields']:
+                add('forwarded-header-field-retyped', 'the bus changed the wire type of a header field of a forwarded '
+                    'message (field:type %s, sent %s)' % (d['hfields'], m['hfields']), d['hfields'], m['hfields'])
             else:
                 wdiff = [f for f in WIRE if d[f] != m[f]]
                 if wdiff:
